@@ -104,9 +104,17 @@ def encmat_correspondence(c):
         ml = mout.splitlines()
     except vlib.BuildError as e:
         c.proof_failed.append({"model_build": str(e)[-1500:]}); return 0
+    try:
+        rc, bout, _ = vlib.sh([vlib.ocaml_model()], input="".join(("Y %d %d %d\n" % (m, k, n)) if (not q or k * n <= 6000) else "Y 8 1 1\n" for (codec, m, k, n) in shapes), timeout=3000)
+        bl = bout.splitlines()
+    except vlib.BuildError as e:
+        c.proof_failed.append({"model_build": str(e)[-1500:]}); bl = []
     n_ok = 0
     for i, (codec, m, k, n) in enumerate(shapes):
         a = ans[i]
+        if (not q or k * n <= 6000) and not a.startswith(("CRASH", "SKIPPED")) and i < len(bl) and bl[i].split()[1:2] != a.split()[1:2] and a.split()[1:2] != ["NONE"]:
+            # the model of the C's own construction (InvertVdm.build_enc, proved equal to the canonical generator) vs the C
+            c.proof_failed.append({"correspondence": "encmat/construction-model", "request": reqs[i], "c": a[:600], "model": bl[i][:600]})
         if a.startswith(("CRASH", "SKIPPED")):
             continue
         got = a.split()[1] if len(a.split()) > 1 else ""
